@@ -22,7 +22,7 @@ If(cond, v) == IF cond THEN <<v>> ELSE <<>>
 MaxOf(S) == CHOOSE x \in S : \A y \in S : y <= x
 MinOf(S) == CHOOSE x \in S : \A y \in S : x <= y
 
-Ctx(eol, lim) == [A |-> 1, lim |-> lim, fam |-> 0, vis |-> 0, eol |-> eol, ib |-> 0, il |-> 1, ic |-> 1, dep |-> 0]
+Ctx(eol, lim) == [A |-> 1, lim |-> lim, fam |-> 0, vis |-> 0, eol |-> eol, ib |-> 0, il |-> 1, ic |-> 1, dep |-> 0, mi |-> 0]
 
 -----------------------------------------------------------------------------
 (* C19: the source line of a position *)
